@@ -858,3 +858,52 @@ func checkLibmemStrictNormalMemory(e *Engine, r *Report, c *lmCtx) {
 	})
 	r.MinInstances("expansions in ensureNormalMemory", n, 1)
 }
+
+// sliceLoop describes one `for _, x := range slice` loop (go/ssa "rangeindex" lowering).
+type sliceLoop struct {
+	head  *ssa.BasicBlock
+	start ssa.Instruction // first instruction of the body
+}
+
+func sliceLoops(fn *ssa.Function) []sliceLoop {
+	var out []sliceLoop
+	for _, b := range fn.Blocks {
+		if b.Comment != "rangeindex.loop" || len(b.Succs) != 2 || len(b.Succs[0].Instrs) == 0 {
+			continue
+		}
+		out = append(out, sliceLoop{b, b.Succs[0].Instrs[0]})
+	}
+	return out
+}
+
+// elem: v is the element of the ranged slice in this iteration (a load of &slice[index] in the loop body).
+func (l sliceLoop) elem(v ssa.Value) bool {
+	u, ok := unspill(v).(*ssa.UnOp)
+	if !ok || u.Op != token.MUL {
+		return false
+	}
+	ia, ok := u.X.(*ssa.IndexAddr)
+	if !ok {
+		return false
+	}
+	idx, ok := ia.Index.(ssa.Instruction)
+	return ok && idx.Block() == l.head
+}
+
+// skips: a path from the start of one iteration to the next iteration (or, with toReturn, to a return) that passes no
+// `must` instruction under the assumption.
+func (l sliceLoop) skips(asm Assumption, must func(ssa.Instruction) bool, toReturn bool) []ssa.Instruction {
+	fn := l.head.Parent()
+	if must(l.start) {
+		return nil
+	}
+	return FindPath(PathQuery{Fn: fn, From: l.start, Assume: asm, Block: must, Target: func(x ssa.Instruction) bool {
+		if x == l.head.Instrs[0] {
+			return true
+		}
+		if _, ok := x.(*ssa.Return); ok && toReturn {
+			return true
+		}
+		return false
+	}})
+}
